@@ -107,13 +107,22 @@ func refSimpleScalar(typ, format string, cv *spec.CommonValidations, v interface
 func refSimple(typ, format string, cv *spec.CommonValidations, items *spec.Items, v interface{}) bool {
 	if typ != "array" {
 		switch v.(type) {
-		case []string, []int64, []float64, [][]string:
+		case []string, []int64, []float64, [][]string, []interface{}:
 			return false
 		}
 		return refSimpleScalar(typ, format, cv, v)
 	}
 	var elems []interface{}
 	switch x := v.(type) {
+	case []interface{}:
+		for _, e := range x {
+			if e != nil { // a nil value is not validated
+				elems = append(elems, e)
+			}
+		}
+		if cv.MinItems != nil || cv.MaxItems != nil || cv.UniqueItems {
+			elems = x // sizes and uniqueness count every element
+		}
 	case []string:
 		for _, e := range x {
 			elems = append(elems, e)
@@ -297,6 +306,10 @@ func genTypedValue(typ string) interface{} {
 }
 
 func genTypedSlice(items *spec.Items) interface{} {
+	if items != nil && items.Type != "array" && verifChoose(5) == 0 {
+		// a generic slice holding a nil element (e.g. a decoded [null])
+		return []interface{}{nil}
+	}
 	n := verifChoose(3)
 	if items != nil && items.Type == "array" {
 		out := make([][]string, 0, n)
